@@ -275,7 +275,19 @@ func vmHistory(t *testing.T, enc *json.Encoder, rng *rand.Rand, nblocks int) {
 			produced(s)
 		}
 
-		// ---- the transaction, modified by a third party
+		// ---- the transaction, modified by a third party - after the node has seen (and pooled) the genuine one, as a third
+		// party on the network would: nothing the node remembers about the genuine transaction may vouch for a variant
+		if bi%2 == 1 {
+			offerTxn("none", txn, txn)
+		}
+		_, foreignSec, _ := cipher.GenerateDeterministicKeyPair([]byte(fmt.Sprintf("third-party-%d", rng.Int63())))
+		for i := range txn.Sigs {
+			// a well-formed signature over the right message, by the third party's own key
+			m := txn
+			m.Sigs = append([]cipher.Sig{}, txn.Sigs...)
+			m.Sigs[i] = cipher.MustSignHash(cipher.AddSHA256(txn.HashInner(), txn.In[i]), foreignSec)
+			offerTxn("sig-by-foreign-key", txn, m)
+		}
 		for i := range txn.Sigs {
 			for how, s := range vmSigForms(txn.Sigs[i], rng) {
 				m := txn
